@@ -237,6 +237,19 @@ pub fn check(case: &Case, w: usize) -> CheckResult {
             }
             Step::Run => {
                 if model.is_some() {
+                    // what it runs is C05's / C07's subject; here it only must leave the stored
+                    // checkpoint as the last update wrote it (the next `show` compares)
+                    let _ = h.env.mr(&["run", "-c", "c0"]);
+                    classes.insert("run while a checkpoint exists");
+                    let o = h.env.mr(&["checkpoint", "show"]);
+                    let shown = o.json().filter(|_| o.ok()).and_then(|v| v.get("checkpoint").cloned());
+                    if shown.as_ref() != model.as_ref() {
+                        return viol_obs(
+                            "c19.show.differs.after-run",
+                            format!("step {}: after a `run` the stored checkpoint is no longer what the last update returned", si),
+                            json!({"shown": shown, "last_update": model}),
+                        );
+                    }
                     continue;
                 }
                 h.env.clear_traces();
